@@ -6,7 +6,7 @@ V = '/verif'
 props = [json.loads(l) for l in open(f'{V}/properties.jsonl')]
 impl = subprocess.run([f'{V}/harness/target/release/jsv', 'list'], capture_output=True, text=True).stdout.split()
 NOTES = {
- 'C01': ("bounded-exhaustive enumeration (every string <= 7/8 over an 18-character alphabet, every token sequence <= 5/6, transition cover of numbers/literals/escapes x 143 probe characters x 4 contexts, every 2-/3-byte UTF-8 sequence in 8 contexts, single-byte corpus edits) + proptest grammar/mutation sampling (incl. large documents) + libFuzzer (thorough); verdict of all 13 entry points vs an independent pushdown automaton and core::str::from_utf8",
+ 'C01': ("bounded-exhaustive enumeration (every string <= 7/8 over an 18-character alphabet, every token sequence <= 5/6, transition cover of numbers/literals/escapes x 143 probe characters x 4 contexts, every 2-/3-byte UTF-8 sequence in 8 contexts, every sequence of <= 4/5 string elements around the surrogate ranges, single-byte corpus edits) + proptest grammar/mutation sampling (incl. large documents) + libFuzzer (thorough); verdict of all 13 entry points vs an independent pushdown automaton and core::str::from_utf8",
          "trusts harness/src/refjson.rs (RFC 8259 automaton, unit-tested) and core::str::from_utf8",
          "PBT: bounded-exhaustive enumeration + proptest sampling + coverage-guided fuzzing, differential vs reference automaton"),
  'C02': ("exhaustive over all 65,536 \\uXXXX units, all 1,048,576 surrogate pairs, all scalar values raw (value and key), backslash + every ASCII character; every valid document among all token sequences <= 6/7; proptest renderings of random/large trees through all 13 entry points; value read back through public accessors vs the reference decoder, every key lookup vs a linear scan",
@@ -24,7 +24,7 @@ NOTES = {
  'C06': ("state-exhaustive (every entry list <= 5/6 over 2/3 keys x every operation instance x two construction routes), history-exhaustive (every history <= 4/5 over ~75 operation instances, cloned walk + fresh replay), long random histories over 85 keys, 1200-key histories (index growth to several hundred keys), 3-key histories (dozens of duplicates), operations incl. clone_from and canonicalize over keys above U+FFFF; after every operation: entries, result, full query battery and hook-dumped index vs a list model",
          "trusts the Vec model in props/c06.rs and objquery.rs; remove_unique on duplicates is checked only as far as the rustdoc promises",
          "PBT: stateful model-based testing, bounded-exhaustive + proptest histories"),
- 'C07': ("the C01 enumerations restricted to rejected inputs + stream-error injection at every character of every corpus document: every reported error (variant, offset, character, span, code units, accessor consistency) vs the reference viable-prefix recogniser",
+ 'C07': ("the C01 enumerations restricted to rejected inputs (incl. every sequence of <= 4/5 string elements around the surrogate ranges) + stream-error injection at every character of every corpus document: every reported error (variant, offset, character, span, code units, accessor consistency) vs the reference viable-prefix recogniser",
          "trusts the reference automaton; surrogate-error spans are read as 'within escape + following element' (DESIGN C07)",
          "PBT: bounded-exhaustive + proptest, differential vs viable-prefix recogniser"),
  'C08': ("all 1,112,064 scalars as one-character string and key, proptest values (incl. large), small-value set; six compact outputs (compact_print, to_string, Display with and without format flags, String::from, print_with(compact)) byte-equal to the reference RFC 8785 serializer",
@@ -45,7 +45,7 @@ NOTES = {
  'C13': ("proptest value x option record, limits set to w-1/w/w+1 and n-1/n/n+1 around the actual width/length of a chosen container, deep chains forcing wide indentation, bounded-exhaustive small values x option set; output byte-equal to a reference layout printer written from the rustdoc",
          "trusts refprint.rs::print_layout as the transcription of the documented layout",
          "PBT: proptest + bounded-exhaustive, differential vs reference printer"),
- 'C14': ("proptest triples of a value and near-copies (== must equal equality of reference trees; reflexive, antisymmetric, transitive, cmp/partial_cmp/operators coherent, equal => same DefaultHasher hash and same byte stream to a recording Hasher), 9 construction routes for one entry list, mixed-size triples, every ordered triple over 43 small values",
+ 'C14': ("proptest triples of a value and near-copies (== must equal equality of reference trees; reflexive, antisymmetric, transitive, cmp/partial_cmp/operators coherent, equal => same DefaultHasher hash and same byte stream to a recording Hasher), 9 construction routes for one entry list, mixed-size triples, every ordered triple over 43 small values, objects reached through generated operation histories (C06's generator) vs fresh builds of their final entry list",
          "content = reference tree read through public accessors",
          "PBT: algebraic laws over proptest-generated triples and construction routes"),
  'C15': ("all ordered pairs of the 6,175 objects with <= 3 entries over 2 keys x 9 values and of the 11,111 objects with <= 4 entries over 5 values (thorough: 41,371 objects over 7 values), wrapped variants, shuffles and single-leaf mutations of random/large values, wide objects over <= 3 keys x 4 values, objects reached through operation histories, operands canonicalized or sorted in place; vs 'normal forms are equal'",
@@ -57,7 +57,7 @@ NOTES = {
  'C17': ("proptest values outside the known-finding classes (exact serialization model incl. duplicate collapse; Value->Value and text->Value deserialization), all number spellings with class-predicate attribution of the 4 open findings, large shapes, duplicated keys whose values are permutations of each other, keys that merely resemble serde_json's private number token, fixed probes; libFuzzer value_laws target (thorough)",
          "serde_json with /repo's features; open findings K02-K05 matched by machine-computed class predicates only",
          "PBT: proptest, model + differential vs serde_json"),
- 'C18': ("proptest serde_json values (all three number representations, private-token objects), json-syntax values of the stated domain (incl. exactly respelled special doubles), unrestricted values for the no-panic clause; a float difference is attributed to the open finding only if bit-equal to serde_json's own FromStr of that token",
+ 'C18': ("proptest serde_json values (all three number representations, private-token objects), json-syntax values of the stated domain (incl. exactly respelled special doubles), unrestricted values for the no-panic clause, duplicate-free objects reached through generated operation histories (duplicates pushed, then removed); a float difference is attributed to the open finding only if bit-equal to serde_json's own FromStr of that token",
          "serde_json with /repo's features; open findings K06/K07",
          "PBT: round-trip with exact attribution predicate"),
  'C19': ("3,000/30,000 generated programs: documents emitted as Rust json! invocations and as JSON text, compiled in one crate per 1,000 against the current /repo and run; a compile error of a generated program is a failure",
